@@ -95,6 +95,10 @@ CHECKS.update({
          "online trace monitor over 1-4 real ConsumerGroup members (own clients) against the simulated group coordinator: every request stamped where the member's client issues it, every reply where it reaches the client, every partition consumer where afkak._group constructs it (recording subclass installed from the harness), every processor call; membership histories with joins, stops, silent kills, evictions, coordinator moves, partition growth, rejected commits and slow processors",
          "Per member: consumer activity (processor call, Fetch/ListOffsets/OffsetFetch/OffsetCommit) only for partitions of the assignment it was sent for the generation it holds, never between its JoinGroup being written and the next synced generation, never after the event that told it it was evicted; consumers and commits carry that generation and member id; a new consumer's first fetch is the group's committed offset + 1; when JoinGroup is written no processor call is pending, no consumer request is outstanding, no consumer is listed or started, and (unless evicted or the commit was rejected/lost) the coordinator holds the last processed offset of every partition of the previous generation; never two Join/Sync in flight; heartbeats only with a synced generation, never while joining or after eviction, one at a time; after stop(): no JoinGroup/SyncGroup, one LeaveGroup, nothing after the stop Deferred fired; every leader assignment covers each partition of each subscribed topic exactly once among subscribers, balanced for identical subscriptions, and each member creates exactly the consumers it was assigned. Three defects found here were fixed in /repo.",
          "told-generation = SyncGroup reply delivered; eviction notice = Join/Sync/Heartbeat/OffsetCommit answered 22/25 or a group request timing out; a heartbeat between stop() and the leave is tolerated", "3/C16"),
+ "C17": ("group-e2e", "fault_enumeration",
+         "fault words (request kind x occurrence x failure kind: every group error code, time-out, disconnect, malformed reply, late answer, processor failure, an undecodable foreign subscription) injected on a live group member's coordinator lookup, metadata loads, JoinGroup, SyncGroup, Heartbeat and its consumers' OffsetFetch/OffsetCommit; all singles, pairs enumerated (thorough) or sampled (quick), longer words and overlapping-error templates; an online monitor evaluates a never-idle predicate over requests outstanding, the injected reactor's delayed calls, pending connects and heartbeats on the wire at every quiescent point",
+         "While started and not stopped and with the start Deferred unfired, at every quiescent point something attributable to the member is pending: a lookup/join/sync/leave request, a delayed call of its join_and_sync, heartbeats on the wire while the last membership outcome it was told is a success, shutdown work of its partition consumers, a client retry timer or connection attempt (a violation needs the predicate false for 8 virtual seconds without a single lookup/group request). On a zero-latency network the rejoin timer armed by a clean error is due after a documented back-off (retry for 27/16/15/22/25, fatal for a timed-out group request, initial for a failed lookup). A processor failure fails the start Deferred. 12 virtual seconds after the last fault the coordinator lists the member in a Stable group and its assigned partitions are being fetched. One defect was fixed in /repo (Kafka errors escaping the join), its non-Kafka half is a known finding.",
+         "idle is judged from outside (see ASSUMPTIONS in the evidence); a malformed reply may legitimately either fail start() or cause a rejoin", "3/C17"),
  "C03": ("consumer-e2e", "fault_enumeration",
          "offline checker over the recorded commit history (every OffsetCommit the coordinator received vs. the processor-completion events before it) plus crash-point enumeration: the process is killed after the k-th client write for every k (sampled above 60 writes), a fresh consumer resumes from OFFSET_COMMITTED and its first delivery is compared with the coordinator's stored offset",
          "Every committed value equals the offset of the last message whose processing had completed when the commit was issued (never behind, never ahead, never re-sent once acknowledged); last_committed_offset is an acknowledged value at every quiescent point; after a kill at any write, the fresh consumer's first delivered offset is stored+1 (the next existing offset) so that at most the un-committed tail is redelivered and nothing is skipped. One defect (processing continues after a processor failure, so a later commit covers the failed message) is listed as known.",
